@@ -402,21 +402,25 @@ def mirror_parent(ctx, o):
     if pub:
         o.refute(f, pub[0], 'unlink through the public parent', "the task is unlinked from `self.parent` (which hides the WBS root task) instead of the "
                  "raw parent field: a root task moved under another task stays in the root list")
-    elif len(raw) == 1:
+    elif raw and not any(a is not b and cfg.can_reach(cfg.node_containing(a), cfg.node_containing(b)) for a in raw for b in raw):
+      # one removal, or several on mutually exclusive paths
+      for r0 in raw:
         ok_conds = (f"{s}._Task__parent is None", f"{s} in {s}._Task__parent._Task__children", f"{p} is None", f"{s}._Task__wbs is None")
         extra = []
-        for t, q in xconds(raw[0]):
+        for t, q in xconds(r0):
             if any(match(pat, t) for pat in ok_conds):
                 continue
             # residues of guards (an `if ..: raise` that did not fire) are not conditions of the removal
             iff = _if_of(f, t) or _if_of_src(f, t)
-            if iff is not None and any(isinstance(x, ast.Raise) for x in ast.walk(iff)) and not any(x is raw[0] for x in ast.walk(iff)):
+            if iff is not None and any(isinstance(x, ast.Raise) for x in ast.walk(iff)) and not any(x is r0 for x in ast.walk(iff)):
                 continue
             extra.append((t, q))
-        if extra:
-            o.refute(f, raw[0], 'conditional unlink', "removal from the old parent is conditional on " + ', '.join(facts.cond_texts(extra)))
-        else:
-            o.site(f, raw[0], "self.__parent.__children.remove(self) when linked")
+        if extra and len(raw) == 1:
+            o.refute(f, r0, 'conditional unlink', "removal from the old parent is conditional on " + ', '.join(facts.cond_texts(extra)))
+        elif not extra:
+            o.site(f, r0, "self.__parent.__children.remove(self) when linked")
+        # with several exclusive removal sites the conditions of each site are path conditions; that every write of the
+        # relation is preceded by one of them is decided below
     else:
         o.refute(f, f.node, 'unlink from old parent', "the task is not removed from its old parent's child list exactly once")
     # new parent: store, then append once
@@ -427,8 +431,7 @@ def mirror_parent(ctx, o):
         return
     stn = cfg.node_of(nn[0][0])
     if raw:
-        rn = cfg.node_containing(raw[0])
-        if cfg.can_reach(stn, rn) or not _decided_before(cfg, f, raw[0], stn):
+        if not _unlinked_before(cfg, f, raw, stn, ex):
             o.refute(f, nn[0][0], nn[0][0], "the parent field is overwritten before the task was unlinked from the old parent")
     app = [c for c, x in xcalls('append') if match(f"{p}._Task__children.append({s})", x)]
     ins = [c for c, x in xcalls('insert') if match(f"{p}._Task__children.insert($i, {s})", x)]
@@ -448,6 +451,11 @@ def mirror_parent(ctx, o):
     none_stores = [x for x in stores if isinstance(x[2], ast.Constant) and x[2].value is None]
     reroot = [c for c, x in xcalls('append') if match(f"{s}._Task__wbs._root().children.append({s})", x)]
     if reroot and none_stores:
+        if raw:
+            for what, nd in (('re-rooting', cfg.node_containing(reroot[0])), ('parent = None', cfg.node_of(none_stores[0][0]))):
+                if not _unlinked_before(cfg, f, raw, nd, ex):
+                    o.refute(f, nd.node if getattr(nd, 'node', None) is not None else f.node, what,
+                             f"{what} happens on a path on which the task was not unlinked from the old parent")
         c1 = xconds(reroot[0])
         if any(match(f"{p} is None", t) and q for t, q in c1) and any(match(f"{s}._Task__wbs is None", t) and not q for t, q in c1):
             o.site(f, reroot[0], "parent = None on a member re-roots it under the WBS root task")
@@ -464,6 +472,44 @@ def _if_of_src(f, test):
         if isinstance(n, ast.If) and src(n.test) == src(test):
             return n
     return None
+
+
+def _unlinked_before(cfg, f, removals, stn, ex=None) -> bool:
+    """every path to stn either executes one of the removals or takes a branch on which the task is known not to be linked
+    (`self.__parent is None` / `self not in self.__parent.__children`); no removal follows stn"""
+    from .taskrules import reaches_avoiding
+    s = f.self_name
+    linked = (f"{s}._Task__parent is None", f"{s} in {s}._Task__parent._Task__children")   # positive cores; wanted polarity below
+    want = (False, True)
+
+    def says_linked(t, q=True):      # the conjunct is implied by "linked"
+        core, pol = facts.norm_cond(t, q)
+        return any(match(pat, core) and pol == w for pat, w in zip(linked, want))
+
+    def says_unlinked(t):
+        core, pol = facts.norm_cond(t, True)
+        return any(match(pat, core) and pol != w for pat, w in zip(linked, want))
+
+    avoid = set()
+    for call in removals:
+        rn = cfg.node_containing(call)
+        if rn is None or cfg.can_reach(stn, rn):
+            return False
+        avoid.add(rn.id)
+    for b in cfg.nodes:
+        if b.kind != 'branch' or isinstance(b.test, (ast.For, ast.AsyncFor)):
+            continue
+        tn = cfg.node_containing(b.test)
+        t = ex.expand(b.test, tn) if ex is not None and tn is not None else b.test
+        if b.polarity is False:
+            conj = facts.split_conj(t, True)
+            if conj and all(says_linked(c, q) for c, q in conj):
+                avoid.add(b.id)
+        else:
+            disj = t.values if isinstance(t, ast.BoolOp) and isinstance(t.op, ast.Or) else [t]
+            if all(says_unlinked(c) for c in disj):
+                avoid.add(b.id)
+    return not reaches_avoiding(cfg, stn, avoid)
 
 
 def _decided_before(cfg, f, call, stn) -> bool:
